@@ -61,7 +61,8 @@ text.append("time and all twenty quick checks run against each; a third set of t
 text.append("py3-only clean-up of the whole package, `ANYTREE_ASSERTIONS` parsed by a helper module, assertion blocks turned into helpers, exception")
 text.append("message factories, restructured symlink forwarding, constructors and `_repr`, exporter / importer option plumbing, a shared DOT/Mermaid")
 text.append("utility module with an id-table class, search / walker / util plumbing, restructured iterator start-up, Resolver internals, RenderTree")
-text.append("formatting) likewise: 39 refactorings x 20 checks = 780 runs, no alarm")
+text.append("formatting) likewise.  On the final machinery: 39 refactorings x 20 checks = 780 runs with one alarm - C19 on `f02`, a false alarm of the")
+text.append("machinery (recursion limit, see section 7.3), corrected, after which `f02` passes all twenty checks as well")
 text.append("(`tools/eq_eval.py`, `seeded/equivalent_results.json`, `seeded/equivalent2_results.json`, `seeded/equivalent3_results.json`).  Over-strict oracles had been found and loosened before by such an")
 text.append("experiment (key order of plain dicts in C10/C11; iterator-protocol details in C05; exact word order of the CountError message in C14).")
 text.append("")
